@@ -84,6 +84,8 @@ package strategy
 //@   loop 2 invariant desiredPods == iter() && 0 <= availablePods && availablePods <= readyPods && readyPods <= createdPods
 //@   loop 2 invariant 0 <= allPods && 0 <= oldAvailablePods && 0 <= oldUnavailablePods && 0 <= podsTerminating && 0 <= nbIgnoredUnresponsiveNodes
 //@   loop 2 invariant root(allPodToCreate) != root(allPodToDelete)
+//@   loop 2 invariant [C03] budget-counts-only-deletable-old-pods: oldAvailablePods + oldUnavailablePods == len(allPodToDelete)
+//@   loop 2 invariant [C03] pods-partition: allPods == createdPods + len(allPodToDelete) + podsTerminating
 //@   loop 2 invariant createdPods + len(allPodToCreate) + len(allPodToDelete) + podsTerminating + nbIgnoredUnresponsiveNodes == iter()
 //@   loop 2 invariant forall j int :: 0 <= j && j < len(allPodToCreate) ==> (allPodToCreate[j] in params.PodByNodeName)
 //@             && params.PodByNodeName[allPodToCreate[j]] == nil && 0 <= iteridx(allPodToCreate[j]) && iteridx(allPodToCreate[j]) < iter()
